@@ -51,7 +51,7 @@ impl Seg {
                 let k = (*k).max(1) as u64;
                 let base = (splitmix64(&mut s) & 0xff) as u8;
                 for _ in 0..*n {
-                    out.push(base.wrapping_add(((splitmix64(&mut s) >> 20) % k) as u8 * 37));
+                    out.push(base.wrapping_add((((splitmix64(&mut s) >> 20) % k) as u8).wrapping_mul(37)));
                 }
             }
             Seg::High { n, seed } => {
